@@ -265,6 +265,7 @@ def _scenario_exits(exits, subst, assume_true=(), assume_false=()):
     mut.const('encoding', 'addr_bech32_to_pubkeyhash', 90, 900, 'bech32: length limit 90 -> 900'),
     mut.replace_expr('encoding', 'addr_bech32_to_pubkeyhash', 'convertbits(data[1:], 5, 8, pad=False)', 'convertbits(data[1:], 5, 8)', 'bech32: padding bits no longer checked'),
     mut.drop_stmt('encoding', 'convertbits', 'raise EncodingError', 'convertbits: padding raise removed'),
+    mut.cmpop('encoding', 'convertbits', 'bits >= frombits', ast.Gt, 'convertbits: a whole spare 5-bit group is accepted'),
     mut.drop_stmt('encoding', '_codestring_to_array', 'raise EncodingError', '_codestring_to_array: unknown character accepted'),
     mut.const('encoding', '_bech32_polymod', 0x3b6a57b2, 0x3b6a57b3, 'polymod generator constant changed'),
 ])
@@ -356,7 +357,26 @@ def bech32_guards(ctx):
     it = Interp(repo, 'encoding')
     ex3 = it.run_function(fn3, {'data': S(('var', 'data'), 'list'), 'frombits': 5, 'tobits': 8, 'pad': False})
     ctx.saw('convertbits(5->8, pad=False) exits: %s' % [e.kind for e in ex3])
-    ctx.require(any(e.kind == 'raise' for e in ex3), q3, 'with pad=False no path raises on left-over padding bits', fn3)
+    if not ctx.require(any(e.kind == 'raise' for e in ex3), q3, 'with pad=False no path raises on left-over padding bits', fn3):
+        return
+    # exact padding rule (BIP173): after regrouping 5->8 bits, at most 4 left-over bits, all zero
+    allp = ('w',) + tuple(t for e in ex3 for (t, pol) in e.pc)
+    bits_a = [s_ for s_ in subterms(allp) if isinstance(s_, tuple) and s_[0] == 'after-loop' and s_[3] == 'bits']
+    acc_a = [s_ for s_ in subterms(allp) if isinstance(s_, tuple) and s_[0] == 'after-loop' and s_[3] == 'acc']
+    if not bits_a or not acc_a:
+        ctx.undecided('convertbits: left-over bit count / accumulator not found in the padding test')
+    for b in range(8):
+        for acc in (0, 1, 0x1f):
+            sub = {bits_a[0]: b, acc_a[0]: acc}
+            feas = [e for e in ex3 if not any(isinstance(t, tuple) and t[0] == 'in-loop' for t, pol in e.pc) and intv.exit_feasible(e, sub)]
+            kinds = set(e.kind for e in feas)
+            must_raise = b >= 5 or ((acc << (8 - b)) & 255) != 0
+            if must_raise and 'return' in kinds:
+                ctx.violate(q3, 'pad=False: %d left-over bits with accumulator %#x are accepted; BIP173 allows at most 4 zero bits of padding' % (b, acc), fn3,
+                            'a data part with a surplus character (and recomputed checksum) decodes to the same program: non-canonical string accepted')
+            if not must_raise and 'return' not in kinds:
+                ctx.violate(q3, 'pad=False: valid zero padding of %d bits is rejected' % b, fn3)
+    ctx.saw('convertbits padding rule evaluated for 8 x 3 (left-over bits, accumulator) combinations')
     q4 = 'encoding:_bech32_polymod'
     fn4 = repo.func(q4)
     gens = [n.value for n in ast.walk(fn4) if isinstance(n, ast.Constant) and isinstance(n.value, int) and n.value > 0xffffff and n.value != 0x1ffffff]
@@ -444,3 +464,53 @@ def encode(ctx):
     parts = flatten_cat(plus_to_cat(v))
     ctx.require(bool(parts) and parts[0] == pad, q, "result does not start with '1' * (number of leading zero bytes): %s" % show(v)[:160], fn,
                 'payloads with leading zero bytes (every P2PKH mainnet address) are encoded wrongly')
+
+
+DECODERS = ('deserialize_address', 'addr_bech32_to_pubkeyhash', 'addr_base58_to_pubkeyhash', 'addr_to_pubkeyhash', 'addr_bech32_checksum')
+FOLDING = ('lower', 'upper', 'casefold', 'swapcase', 'title', 'capitalize', 'strip', 'lstrip', 'rstrip', 'replace')
+
+
+@PROP.obligation('C11.no-prenormalise', canaries=[
+    mut.insert_before('keys', 'Address.parse', 'addr_dict = deserialize_address', 'address = address.lower()', 'Address.parse lower-cases the address before decoding'),
+    mut.replace_expr('transactions', 'Output.__init__', 'deserialize_address(self._address, network=network.name)', 'deserialize_address(self._address.strip(), network=network.name)', 'Output strips the address before decoding') if False else
+    mut.insert_before('keys', 'deserialize_address', "if encoding is None or encoding == 'base58'", 'address = address.strip()', 'deserialize_address strips the string before validation'),
+])
+def no_prenormalise(ctx):
+    """No caller (and no decoder before its own validation) case-folds or strips the text handed to an address decoder:
+    the mixed-case / character checks must see the caller's string. (addr_bech32_to_pubkeyhash may lower-case AFTER its own
+    mixed-case test; that internal use is checked by C11.bech32-guards.)"""
+    from ..dfa import ReachingDefs
+    repo = ctx.repo
+    n = 0
+    for modname, m in sorted(repo.modules.items()):
+        for fq, fn in sorted(m.functions.items()):
+            calls = [c for c in calls_in(fn) if callee_name(c) in DECODERS and c.args]
+            # inside a decoder, also look at the parameter itself at the first validation
+            if not calls:
+                continue
+            rd = ReachingDefs(fn)
+            for c in calls:
+                n += 1
+                nid = rd.node_of_ast(c)
+                if nid is None:
+                    continue
+                leaves = rd.leaves(c.args[0], nid)
+                folds = sorted(l[1] for l in leaves if l[0] == 'call' and l[1].split('.')[-1] in FOLDING)
+                q = '%s:%s' % (modname, fq)
+                if folds:
+                    ctx.saw('%s: %s(%s) <- %s' % (q, callee_name(c), unparse(c.args[0]), folds))
+                    if fq == 'addr_bech32_checksum' or fq == 'addr_bech32_to_pubkeyhash':
+                        continue
+                    ctx.violate(q, 'the text passed to %s() was normalised by %s first' % (callee_name(c), ', '.join(folds)), c,
+                                'mixed-case or padded strings are silently repaired and accepted instead of rejected')
+    ctx.saw('%d decoder call sites inspected' % n, n)
+    ctx.floor(n, 8, 'decoder call sites')
+    # the decoders themselves: the parameter must not be re-bound through a folding call before the first raise-guard
+    for q, param in (('keys:deserialize_address', 'address'), ('encoding:addr_base58_to_pubkeyhash', 'address')):
+        fn = repo.func(q)
+        for node in walk_no_nested(fn):
+            if isinstance(node, ast.Assign) and any(isinstance(t, ast.Name) and t.id == param for t in node.targets):
+                v = node.value
+                if isinstance(v, ast.Call) and isinstance(v.func, ast.Attribute) and v.func.attr in FOLDING:
+                    ctx.violate(q, 'parameter %s is re-bound to %s before validation' % (param, norm(v)), node,
+                                'padded / case-changed strings are silently repaired and accepted')
